@@ -1,4 +1,5 @@
 import TypifyModel.Proofs.C10
+import TypifyModel.Proofs.C10Strings
 open TypifyModel.C10
 #print axioms table_ok
 #print axioms int_fits_tbl
@@ -7,3 +8,9 @@ open TypifyModel.C10
 #print axioms bad_default
 #print axioms formats_spec_partial
 #print axioms formats_recognised
+open TypifyModel.C10S
+#print axioms string_formats_documented
+#print axioms string_format_unrecognised
+#print axioms string_formats_known
+#print axioms string_formats_functional
+#print axioms string_formats_uses
